@@ -172,11 +172,6 @@ Definition enc_out (o : out) : list N :=
   end.
 Definition printed (o : out) : bool := match o with OBind _ _ | ODial _ => false | _ => true end.
 
-Fixpoint dedup (l : list N) : list N :=
-  match l with
-  | [] => []
-  | x :: t => if memN x t then dedup t else x :: dedup t
-  end.
 Definition idN (x : N) : N := x.
 Definition ids_of (p : N) (l : list (N * N)) : list N :=
   sort_by idN (map snd (filter (fun a => fst a =? p) l)).
@@ -203,12 +198,6 @@ Fixpoint index_of (x : N) (l : list N) (i : N) : option N :=
   | [] => None
   | y :: t => if y =? x then Some i else index_of x t (i + 1)
   end.
-
-(* the clock advance of GFlush: past every deadline *)
-Definition FLUSH_DT (c : cfg) : N := 2 * tmo c + 1.
-(* what the environment still owes, by its own books (the ghost ledger), turned into stimuli *)
-Definition flush_evs (c : cfg) (g : ghost) : list ev :=
-  map EDialFail (sort_by idN (dedup (g_dials g))) ++ map EClosed (sort_by idN (dedup (g_conn g))) ++ [EAdvance (FLUSH_DT c)].
 
 (* the model events of one harness stimulus; g = the environment's ledger so far *)
 Definition expand (c : cfg) (st : pst * env) (g : ghost) (op : gop) : list ev :=
